@@ -9,7 +9,7 @@ import fcntl, hashlib, json, os, shutil, subprocess, sys, time, glob
 
 VERIF = os.path.dirname(os.path.dirname(os.path.abspath(__file__)))
 REPO = os.environ.get("VERIF_REPO", "/repo")
-CACHE = os.path.join(VERIF, ".cache")
+CACHE = os.environ.get("VERIF_CACHE") or os.path.join(VERIF, ".cache")   # VERIF_CACHE: a private cache for a parallel shard of the regression batteries
 DRIVER_DIR = os.path.join(VERIF, "mirfacts")
 DRIVER = os.path.join(DRIVER_DIR, "target", "release", "mirfacts")
 SYN_DIR = os.path.join(VERIF, "synfacts")
